@@ -105,9 +105,29 @@ FAMILIES = {
                   "lef21/src/read.rs LefParser::advance, matches, expect, peek_key, get_key, expect_key, parse_ident, parse_number, parse_point and the whole of parse_density (two nested loops "
                   "with break, each on the fuel the state gives; derive_builder of LefDensityGeometries; context stack) = the functions of the same names of Lef/LefParse.v "
                   "(monadic self: the model's parser state; lexer, txt, LefKey::parse, rust_decimal external; error value apart)"),
+    # the LEF parser, second part: its own generated file (unit "lefr2"), the helpers of the family lef_parse external there
+    "lef_parse2": ("Lef/KernelsTieLefRead2_proofs.v", "Lef.KernelsTieLefRead2_proofs", "Properties/KernelsLef.v",
+                   "lef21/src/read.rs LefParser::parse_units (the loop over the eight unit statements, LefDbuPerMicron::try_new external), parse_size, parse_symmetries, parse_macro_class "
+                   "(all six classes), parse_site_def (loop; derive_builder of LefSite with build() as an error of its own), parse_property (the token-type test), parse_pin_direction, "
+                   "parse_geometry_mask, parse_iterate, parse_step_pattern, parse_point_list, parse_geometry_tail, parse_geometry (RECT / POLYGON / PATH, the point-count tests), "
+                   "expect_and_get_str, get_name, expect_ident = the functions of the same names of Lef/LefParse.v (monadic self; the helpers tied in the family lef_parse, "
+                   "parse_enum::<T> at each T, the lexer, txt, rust_decimal external; error value apart; the variant flag c_points_to_semi as the code is now)"),
+    "lef_parse3": ("Lef/KernelsTieLefRead3_proofs.v", "Lef.KernelsTieLefRead3_proofs", "Properties/KernelsLef.v",
+                   "lef21/src/read.rs LefParser::parse_layer_geometries (the loop over the options of the LAYER statement, the body loop over PATH / POLYGON / RECT / VIA / WIDTH with the "
+                   "end-of-input exit, derive_builder of LefLayerGeometries), parse_via_shape (RECT / POLYGON, the MASK test, the point-count test), parse_via_layer_geometries, "
+                   "parse_obstructions, parse_port, parse_property_definition_tail, parse_property_definitions (object type, name, STRING / REAL / INTEGER) = the functions of the same names "
+                   "of Lef/LefParse.v, the callees through their own ties of the family lef_parse2 (same reading, same externals; the code as it is now)"),
+    "lef_parse_lib": ("Lef/KernelsTieLefReadL_proofs.v", "Lef.KernelsTieLefReadL_proofs", "Properties/KernelsLef.v",
+                      "lef21/src/read.rs LefParser::parse_pin, the whole function (the loop over END / PORT / DIRECTION / USE / SHAPE / ANTENNAMODEL / the nine antenna attributes with the optional "
+                      "LAYER / TAPERRULE / MUSTJOIN / SUPPLYSENSITIVITY / GROUNDSENSITIVITY / NETEXPR / PROPERTY, derive_builder of LefPin, the closing name, properties handed to the builder) "
+                      "= parse_pin / pin_loop of Lef/LefParse.v, the callees through their own ties of the families lef_parse2 / lef_parse3 (the code as it is now)"),
+    "lef_parse_macro": ("Lef/KernelsTieLefReadM_proofs.v", "Lef.KernelsTieLefReadM_proofs", "Properties/KernelsLef.v",
+                        "lef21/src/read.rs LefParser::parse_macro, the whole function (the loop over CLASS / SITE / EEQ / FIXEDMASK / FOREIGN with the optional point and orientation / ORIGIN / SIZE / "
+                        "PIN / OBS / PROPERTY / SYMMETRY / SOURCE with the version gate on the session version / DENSITY / END, derive_builder of LefMacro, the closing name, properties handed to the "
+                        "builder) = parse_macro / macro_loop of Lef/LefParse.v, the callees through their own ties (families lef_parse2, lef_parse3, lef_parse_lib; parse_density: family lef_parse)"),
 }
 # the file generated for each family (evidence text)
-GENERATED = {"lef_parse": "KernelsLefReadGen.v", "gds_write": "KernelsGdsWriteGen.v", "gds_read": "KernelsGdsReadGen.v", "gds_parse": "KernelsGdsReadGen.v", "gds_parse_e1": "KernelsGdsReadGen.v", "gds_parse_e2": "KernelsGdsReadGen.v", "gds_parse_lib": "KernelsGdsReadGen.v", "lef_write": "KernelsLefWriteGen.v", "lef_write_lib": "KernelsLefWriteGen.v", "tetris_period": "KernelsTetrisConvPGen.v", "tetris_proto": "KernelsTetrisProtoGen.v", "raw_gdsi": "KernelsRawGdsImportGen.v", "tetris_conv": "KernelsTetrisConvXGen.v, KernelsTetrisConvIGen.v", "raw_gdsx": "KernelsRawGdsExportGen.v", "order_generic": "KernelsOrderGen.v", "order_raw": "KernelsRawOrderGen.v", "order_tetris": "KernelsTetrisOrderGen.v, KernelsTetrisProtoOrderGen.v (and KernelsOrderGen.v)", "tetris_stack": "KernelsTetrisGen.v", "tetris_tracks": "KernelsTetrisGen.v", "tetris_place": "KernelsTetrisGen.v", "raw_lef": "KernelsRaw2Gen.v", "raw_proto": "KernelsRaw2Gen.v", "raw_gds": "KernelsRaw2Gen.v"}
+GENERATED = {"lef_parse_macro": "KernelsLefRead2Gen.v", "lef_parse": "KernelsLefReadGen.v", "lef_parse2": "KernelsLefRead2Gen.v", "lef_parse3": "KernelsLefRead2Gen.v", "lef_parse_lib": "KernelsLefRead2Gen.v", "gds_write": "KernelsGdsWriteGen.v", "gds_read": "KernelsGdsReadGen.v", "gds_parse": "KernelsGdsReadGen.v", "gds_parse_e1": "KernelsGdsReadGen.v", "gds_parse_e2": "KernelsGdsReadGen.v", "gds_parse_lib": "KernelsGdsReadGen.v", "lef_write": "KernelsLefWriteGen.v", "lef_write_lib": "KernelsLefWriteGen.v", "tetris_period": "KernelsTetrisConvPGen.v", "tetris_proto": "KernelsTetrisProtoGen.v", "raw_gdsi": "KernelsRawGdsImportGen.v", "tetris_conv": "KernelsTetrisConvXGen.v, KernelsTetrisConvIGen.v", "raw_gdsx": "KernelsRawGdsExportGen.v", "order_generic": "KernelsOrderGen.v", "order_raw": "KernelsRawOrderGen.v", "order_tetris": "KernelsTetrisOrderGen.v, KernelsTetrisProtoOrderGen.v (and KernelsOrderGen.v)", "tetris_stack": "KernelsTetrisGen.v", "tetris_tracks": "KernelsTetrisGen.v", "tetris_place": "KernelsTetrisGen.v", "raw_lef": "KernelsRaw2Gen.v", "raw_proto": "KernelsRaw2Gen.v", "raw_gds": "KernelsRaw2Gen.v"}
 TRANSLATOR = os.path.join(VERIF, "tools", "translate_rust_kernels.py")
 
 def _failing_lemma(out, coqdir):
